@@ -8,7 +8,7 @@ TRACE_MODULE = "Trace_X19"
 
 
 def run(ctx):
-    ctx.mc("MC_X19", "MC_X19.cfg", workers=min(8, vlib.NCPU), timeout=900,
+    ctx.mc("MC_X19", "MC_X19.cfg" if ctx.quick else "MC_X19_deep.cfg", workers=min(8, vlib.NCPU), timeout=1500,
            what="rational grids: linearGradient (0 at Point0, 1 at Point1, affine along the line = action, constant on perpendiculars = action, "
                 "translation / scaling / end point exchange), radialGradient (closed form = non-negative root of A g^2 - 2 B g - C, discriminant "
                 "identity, 1 exactly on the circle, 0 at the focal point, |D| / R for Focal = Center, homogeneous = action, at most one root), "
